@@ -30,6 +30,12 @@ C = {
  "C09": ("enum", "exhaustive enumeration of generated port trees and of all runtime states of a macro-built application against a reference expansion",
          "walk_ports is run on every generated tree (depth 1..3, thorough 4; #N at any level, multi-component names, argument specs) from an empty and a non-empty name buffer and on a macro-built application in all 256 states of its pointers and enabling toggles; the reported (port, address) multiset is compared with a reference expansion, the name buffer must be restored, and every reported address must dispatch to the reported port.",
          "reference expansion from the tree description; reference matcher for the dispatch part"),
+ "C10": ("enum", "exhaustive enumeration of argument lists x print options, print -> count -> scan round trip with guard-paged buffers",
+         "All lists of length 0..2 over a 74-value alphabet, length 3 (thorough 4) over sub-alphabets, every run shape around the compression threshold with every neighbour, arrays of every element type and length 0..4, every string of a 403-string family, all chars/escapes, 61 time tags, x 30 option sets (line length x precision x compression) and as whole messages: printed length, checker count, slots written (sentinels), bytes consumed and bit-exact values after the harness's own range expansion are checked; all areas the library writes end at PROT_NONE pages.",
+         "range expansion engine/pretty_common.h; failing cases are reduced before the signature is taken"),
+ "C11": ("enum", "constructive exhaustive enumeration of grammar sentences with deviation-bounded whitespace/comment insertion",
+         "125 (denotation, spelling) items covering every construct of doc/Guide.adoc; all legal sequences of 1..2 items, 3 (thorough 4) over sub-alphabets, each with 0, 1 or 2 token-boundary deviations (blanks, tabs, newlines, comments incl. ones with syntax characters), message forms and the manual's examples verbatim: checker count == slots written, whole text consumed, scanned values == denotation bitwise, reprint scans identically.",
+         "denotation known by construction; the manual's ambiguous forms are not generated (listed in the meta file)"),
  "C12": ("bfs", "explicit-state search over application states reached by parameter messages; per state save/parse/load oracle",
          "Breadth-first search over all states of three macro-built applications reachable by parameter messages up to a depth (2/4/4, thorough 3/5/5, plus root states); in every state the savefile is produced, parsed line-wise by the harness and checked for minimality against defaults computed by the harness, loaded into a fresh instance and compared field by field; negative files (wrong header, other app, unparsable / unaccepted line at every position) must be rejected.",
          "applications apps/save_apps.h follow the documented macro usage; expected defaults come from the app description, not from the library"),
@@ -51,6 +57,12 @@ C = {
  "C18": ("enum", "exhaustive enumeration of paths, generated trees and path_search queries against reference implementations",
          "All absolute paths of 1..6 (thorough 8) components with '..' anywhere for collapsePath (stack-based reference, canaries, exact-size buffers); apropos on every walked address of generated trees satisfying the side condition; path_search over all name sequences up to length 3 (thorough 5) x 7 locations x every needle x 3 options x query flag x both API forms against a reference child search, replies validated with the reference decoder.",
          "AddressSanitizer; reference codec"),
+ "C19": ("bfs", "explicit-state BFS over operation histories on the real AutomationMgr with a learn-queue/range reference model and per-state probe sweeps",
+         "For managers (slots, per_slot) in {(2,1),(2,2),(3,1)} (thorough more; (2,1) to a fixpoint) with object memory pre-filled 0x00/0xFF, every history of createBinding/clearSlot/clearSlotSub/gain/offset/handleMidi/NRPN operations up to the stated depth is replayed on a fresh real object; after every operation the learn state is compared with a FIFO model, and in every state a sweep of setSlot values checks address, type, range, monotonicity and the exact linear (1e-5 log) mapping of every emitted message.",
+         "canon leaves out fields no operation reads (listed in the source); re-learn of a bound slot is a don't-care"),
+ "C20": ("bfs", "explicit-state BFS over a two-party protocol: real MidiMappernRT and MidiMapperRT joined by harness-owned FIFO channels",
+         "Every interleaving of map/unMap/clear, incoming controller values and deliveries of the two message channels (at most 2 in flight each) up to depth 8 (thorough 12) from the initial and four prepared states is a path of the search over the real objects; a two-sided reference model decides for every controller value which backend message must appear (address, range, monotone value, 7/14 bit) and that unassigned controllers stay silent.",
+         "snapshots compared by content (pointers replaced by indices); harness frees snapshots the library leaks"),
 }
 
 checks = []
